@@ -216,6 +216,39 @@ func enumerate(shard, nshards int, yield func(Case)) {
 		{"/w/root.json": `{"openapi":"3.0.3","info":{"title":"t","version":"1"},"paths":{"/x":{"$ref":"item.json"}}}`,
 			"/w/item.json": `{"post":{"callbacks":{"cb":{"{$request.body#/u}":{"$ref":"item.json"}}},"responses":{"200":{"description":"d"}}}}`},
 	}
+	// fragments that run through a member that is absent (or is of another kind) and go on: every
+	// component of the base document as the start, every one- and two-token tail over the field
+	// vocabulary, planted at a schema position and at a position of the start's own kind
+	{
+		base := jv.Parse(docgen.BaseDoc).(M)
+		starts := []string{"schemas/S", "schemas/N", "schemas/S/properties/n", "schemas/S/properties/id", "parameters/P", "headers/H", "requestBodies/RB", "responses/R", "examples/E", "links/L", "callbacks/CB", "securitySchemes/oauth"}
+		var tails []string
+		for _, a := range tailVocab {
+			tails = append(tails, "/"+a)
+			for _, b := range tailVocab {
+				tails = append(tails, "/"+a+"/"+b)
+			}
+		}
+		for si, st := range starts {
+			for ti, tl := range tails {
+				idx++
+				if idx%nshards != shard {
+					continue
+				}
+				d := jv.Clone(base).(M)
+				ref := M{"$ref": "#/components/" + st + tl}
+				comps := d["components"].(M)
+				comps["schemas"].(M)["ZDangling"] = M{"type": "object", "properties": M{"d": ref}}
+				if (si+ti)%2 == 0 {
+					// also where a reference of the start's own kind is expected
+					sect := strings.SplitN(st, "/", 2)[0]
+					comps[sect].(M)["ZDanglingOwn"] = jv.Clone(ref)
+				}
+				b, _ := json.Marshal(d)
+				yield(Case{Files: map[string][]byte{"/w/root.json": b}, Root: "/w/root.json", Entry: []string{"data", "datawithpath"}[idx%2], AllowExt: idx%4 < 2})
+			}
+		}
+	}
 	for i, files := range extCycles {
 		for _, entry := range []string{"uri", "datawithpath"} {
 			idx++
@@ -546,6 +579,11 @@ func deleteAt(root any, ptr []string) any {
 	return root
 }
 
+// tailVocab: field names of the specification's objects, array indexes and map keys of the base document
+var tailVocab = []string{"items", "not", "additionalProperties", "properties", "allOf", "anyOf", "oneOf", "0", "1", "n", "id", "schema", "content", "application~1json", "headers", "examples",
+	"example", "value", "encoding", "responses", "200", "requestBody", "parameters", "callbacks", "links", "post", "{$url}", "servers", "variables", "enum", "discriminator", "mapping",
+	"xml", "externalDocs", "flows", "password", "scopes", "x-ext", "required", "type", "default"}
+
 var hostileRefs = []string{"#", "#/", "", "#/components/schemas/Missing", "#/info/title", "#/paths", "#/components", "aux.json", "aux.json#/components/schemas/A", "aux.json#/paths/~1x",
 	"./aux.json#/components/responses/R", "../w/aux.json#/components/headers/H", "missing.json", "missing.json#/a", "//", "http://example.invalid/x.json#/a", "#/components/schemas/A/properties/b", "#a", "#/%zz", "aux.json#/components/parameters/P", "root.json#/components/schemas/S0"}
 
@@ -578,7 +616,13 @@ func mutate(t *rapid.T, doc any) any {
 		return deleteAt(doc, l.ptr)
 	case 2, 3, 4: // replace a subtree by a reference
 		var r string
-		switch rapid.IntRange(0, 3).Draw(t, "refkind") {
+		switch rapid.IntRange(0, 4).Draw(t, "refkind") {
+		case 4:
+			// an existing location, continued through members it may not have
+			r = ptrString(pick("rtailbase").ptr)
+			for i, n := 0, rapid.IntRange(1, 3).Draw(t, "ntail"); i < n; i++ {
+				r += "/" + rapid.SampledFrom(tailVocab).Draw(t, "tail")
+			}
 		case 0:
 			r = rapid.SampledFrom(hostileRefs).Draw(t, "href")
 		case 1:
